@@ -58,11 +58,17 @@ def playback(harness):
     shutil.rmtree(scratch, ignore_errors=True)
     shutil.copytree(KANI_DIR, scratch, ignore=shutil.ignore_patterns('target'))
     man = os.path.join(scratch, 'Cargo.toml')
-    code, out = run_kani(harness, ['-Z', 'concrete-playback', '--concrete-playback=inplace'], man, 'kani-pb')
-    src = open(os.path.join(scratch, 'src', 'lib.rs')).read()
-    tests = re.findall(r'fn (kani_concrete_playback_\w+)', src)
-    if not tests:
+    code, out = run_kani(harness, ['-Z', 'concrete-playback', '--concrete-playback=print'], man, 'kani-pb')
+    m = re.search(r'```\n(.*?)```', out, re.S)
+    if not m:
         return False, 'no concrete playback test was generated\n' + out[-2000:], scratch
+    test = m.group(1)
+    lib = os.path.join(scratch, 'src', 'lib.rs')
+    src = open(lib).read().rstrip()
+    assert src.endswith('}')
+    src = src[:-1] + '\n' + test + '\n}\n'      # inside `mod proofs`
+    open(lib, 'w').write(src)
+    tests = re.findall(r'fn (kani_concrete_playback_\w+)', src)
     cmd = ['cargo', 'kani', 'playback', '-Z', 'concrete-playback', '--manifest-path', man, '--', tests[0]]
     r = subprocess.run(cmd, env=_env(), stdout=subprocess.PIPE, stderr=subprocess.STDOUT, text=True, cwd=scratch)
     failed = ('FAILED' in r.stdout or 'panicked' in r.stdout) and r.returncode != 0
